@@ -142,6 +142,12 @@ func (f *Function) Eval(s *Scope, depth int) (result Object) {
 			f.Args[i] = arg
 		}
 		v := s.Eval(arg, d2)
+		switch v.(type) {
+		case *ReturnResult, *GoTo:
+			// A return-from or go in an argument form ends the call, the
+			// marker is passed up instead of being used as the argument.
+			return v
+		}
 		if vs, ok := v.(Values); ok && !skip {
 			v = vs.First()
 		}
